@@ -144,6 +144,9 @@ def deepestRefLoop (x : Ext) (d : J) : Nat → List String → String → Outcom
 
 def hasFragmentOnly (ref : String) : Bool := Str.hasPrefix "#" ref
 
+/-- `url.PathUnescape` with the error ignored, as the callers do (`x, _ := url.PathUnescape(s)`) -/
+def unescOrEmpty (s : String) : String := (Str.pathUnescape s).getD ""
+
 def deepestRef (x : Ext) (d : J) (fuel : Nat) (ref : String) : Outcome (String × Option J) :=
   if !hasFragmentOnly ref then .ok (ref, none) else deepestRefLoop x d fuel [] ref
 
@@ -433,8 +436,12 @@ def flattenAnonPointer (fc : Facts) (x : Ext) (o : Opts) (ops : List (String × 
     let parts := SortRef.keyParts v.ref
     if (!fl.isSimpleSchema || callers.length > 1) && !SortRef.isSharedParam parts && !SortRef.isSharedResponse parts then do
       let st' ← nameSchema fc x o ops st v.ref schema fl
+      -- a caller held by the schema that has just been moved to a definition moved with it (the namer has rewritten
+      -- it there): its key is gone, it leaves the plan
+      let moved := unescOrEmpty v.ref
       let plans' := callers.foldl (fun ps caller =>
         if caller = key then ps
+        else if Str.hasPrefix (moved ++ "/") caller then ps.filter (fun p => p.1 ≠ caller)
         else match ps.lookup caller with
           | some c => setPlan caller { c with ref := v.ref } ps
           -- `c := refsToReplace[caller]` on an absent key is the zero SchemaRef, stored back with the new Ref
@@ -577,9 +584,6 @@ def stripOAIGen (fc : Facts) (x : Ext) (s : St) : Outcome (St × Bool) :=
 /-! ### importReferences (file references; URLs with a host are not modelled) -/
 
 def hasHost (uri : String) : Bool := Str.containsSub "://" uri
-
-/-- `url.PathUnescape` with the error ignored, as the callers do (`x, _ := url.PathUnescape(s)`) -/
-def unescOrEmpty (s : String) : String := (Str.pathUnescape s).getD ""
 
 /-- `normalize.Path(ref, basePath)` -/
 def normPath (o : Opts) (ref : String) : Outcome String :=
